@@ -159,8 +159,32 @@ func main() {
 	fs.Parse(os.Args[3:])
 	w := bufio.NewWriterSize(os.Stdout, 1<<20)
 	defer w.Flush()
-	exec := func(c Case) Event { return execSafe(f, c) }
-	stopEarly := func() bool { return false }
+	// A call into the library that does not return is an observation too: every case runs in its own goroutine and is
+	// given VERIF_CASE_TIMEOUT_S seconds (default 120; ordinary cases take milliseconds). A case that has not returned
+	// by then is reported as a "hang" (the goroutine is abandoned and keeps one core busy until the process exits);
+	// after three of them the recording stops and what was recorded is judged.
+	caseTimeout := 120 * time.Second
+	if v, err := strconv.Atoi(os.Getenv("VERIF_CASE_TIMEOUT_S")); err == nil && v > 0 {
+		caseTimeout = time.Duration(v) * time.Second
+	}
+	hangs := 0
+	exec := func(c Case) Event {
+		ch := make(chan Event, 1)
+		go func() { ch <- execSafe(f, c) }()
+		select {
+		case ev := <-ch:
+			return ev
+		case <-time.After(caseTimeout):
+			hangs++
+			ev := Event{}
+			if f.OnPanic != nil {
+				ev = f.OnPanic(c)
+			}
+			ev["panic"] = fmt.Sprintf("hang: the call did not return within %v", caseTimeout)
+			return ev
+		}
+	}
+	stopEarly := func() bool { return !*noEarly && hangs >= 3 }
 	if f.Isolated && mode != "worker" {
 		iso := &isolator{fam: fam}
 		defer iso.stop()
